@@ -83,10 +83,27 @@ def process_history():
     return wit, cases
 
 
+def try_statements():
+    """five methods with try / except / else / finally (c04_try.py): every listed execution (body completes or raises at its end, each handler) is a path"""
+    import c04_try
+    try:
+        probs = c04_try.problems()
+    except Exception as e:      # noqa
+        probs = [f'exception {e!r}']
+    if probs:
+        return [dict(function='ControlFlowAnalysis.analyze_try_stmt', input='the five try-statement methods of c04_try.py', observed=probs[:3], tries=True,
+                     clauses=['whenever B executes immediately after A the graph has the edge A to B', 'every fall-through reaches the exit node'])], 5
+    return [], 5
+
+
 def run_family(max_size):
     wit, cases = process_history()
     if wit:
         return wit, cases
+    w2, c2 = try_statements()
+    cases += c2
+    if w2:
+        return w2, cases
     bodies = list(EXTRA) + list(F.HAND_WRITTEN)
     for size in range(1, max_size + 1):
         bodies += list(F.gen_block(size, 2, False))
@@ -111,6 +128,9 @@ def search(target, models):
 
 
 def replay(w):
+    if isinstance(w, dict) and w.get('tries'):
+        wit, _ = try_statements()
+        return dict(reproduced=bool(wit), detail=wit[:1])
     if isinstance(w, dict) and w.get('history'):
         wit, _ = process_history()
         return dict(reproduced=bool(wit), detail=wit[:1])
@@ -126,7 +146,7 @@ if __name__ == '__main__':
     if '--bounded' in sys.argv:
         n = int(sys.argv[sys.argv.index('--bounded') + 1])
         wit, cases = run_family(n)
-        common.emit(dict(witnesses=wit, cases=cases, bound=f'120 orders of 3 of 6 small methods analysed in one process (foreign statements / entry node); every method body with <= {n} AST nodes over assignment, if/else, while (cond or literal true), for-in, loop else, break, '
+        common.emit(dict(witnesses=wit, cases=cases, bound=f'120 orders of 3 of 6 small methods analysed in one process (foreign statements / entry node); 5 try/except/else/finally methods with their listed executions; every method body with <= {n} AST nodes over assignment, if/else, while (cond or literal true), for-in, loop else, break, '
                                                                f'continue, return (loops nested <= 2) + hand-written bodies, all branch-decision vectors (<= 6 decisions)'))
         sys.exit(1 if wit else 0)
     common.main(search, replay)
